@@ -535,7 +535,7 @@ class ExprMixin:
             return self.dict_has(container, item)
         if k == "seq":
             item = self.coerce(item, container.ty.args[0])
-            return z3.Contains(container.t, z3.Unit(item.t))
+            return z3.Select(self.elems_of(container), item.t)   # membership through the element-set view
         if k == "tuple":
             return z3.Or(*[self.eq(self.tuple_get(container, i), item) for i in range(len(container.ty.args))])
         raise Unsupported(f"`in` on {container.ty}")
